@@ -268,7 +268,9 @@ def handleSem (st : DState) : List Sexp → Option Sexp
         pure (.list [.atom "sem", .list [.atom "parsed", ofBool true],
           .list [.atom "tree-equal", ofBool (modelStr == realStr)],
           .list [.atom "model", .str modelStr], .list [.atom "real", .str realStr],
-          .list [.atom "certified", ofBool (certified prog)], .list [.atom "certified-sem", ofBool (certifiedSem prog || certifiedSemB prog || certifiedSemP prog)], .list [.atom "cert-detail", .str (certDetail prog)], .list [.atom "pure-equal", ofBool (pureEqualsH (cfgOfString cfgName) prog)],
+          .list [.atom "certified", ofBool (certified prog)], .list [.atom "certified-sem", ofBool (certifiedSem prog || certifiedSemB prog || certifiedSemP prog)],
+          -- the certificate that also accepts the low-bits macro arguments (theorem under the extra assumption `Sem.MsLow`)
+          .list [.atom "certified-semx", ofBool (certifiedSemX prog || certifiedSemX (dropBare prog))], .list [.atom "cert-detail", .str (certDetail prog)], .list [.atom "pure-equal", ofBool (pureEqualsH (cfgOfString cfgName) prog)],
           .list [.atom "ran", ofNat run.1], .list [.atom "skipped", ofNat run.2.1],
           .list (.atom "fail" :: (match run.2.2 with | some f => [.str f] | none => []))])
   | _ => none
